@@ -264,6 +264,8 @@ class Builder:
             for param in parameter_args
         ]
         parameter_dict = {param.name: param for param in parameter_list}
+        if len(parameter_dict) != len(parameter_list):
+            raise JaqalError(f"Macro {name} has a repeated parameter name")
         macro_context = {
             **context,
             **parameter_dict,
